@@ -7,8 +7,8 @@ CONSTANTS EmitCases, Shard, NShards
 Maps == {"m1", "m2", "nofile"}
 BaseKinds == {"absent", "other_cmd", "one", "two"}
 NamedKinds == {"absent", "other_cmd", "one", "two"}
-VARIABLES base1, base2, n11, n12, n21, n22, requested, args, nobase, resolve, customdirs, twocmds
-vars == <<base1, base2, n11, n12, n21, n22, requested, args, nobase, resolve, customdirs, twocmds>>
+VARIABLES base1, base2, n11, n12, n21, n22, requested, args, nobase, resolve, customdirs, shareddir, twocmds
+vars == <<base1, base2, n11, n12, n21, n22, requested, args, nobase, resolve, customdirs, shareddir, twocmds>>
 ReqSeqs == {<<>>} \cup { <<a>> : a \in Maps } \cup { <<a, b>> : a \in Maps, b \in Maps }
 Init == /\ base1 \in BaseKinds /\ base2 \in {"absent", "one"}
         /\ n11 \in NamedKinds /\ n12 \in {"absent", "one"}
@@ -18,6 +18,8 @@ Init == /\ base1 \in BaseKinds /\ base2 \in {"absent", "one"}
         /\ nobase \in BOOLEAN
         /\ resolve \in {"stem", "defpath", "def_nopath"}
         /\ customdirs \in BOOLEAN
+        \* both targets resolve commands in ONE shared directory (only meaningful with custom directories)
+        /\ shareddir \in BOOLEAN /\ (shareddir => customdirs)
         /\ twocmds \in BOOLEAN
         /\ (args = "two" => ~twocmds)
         \* keep the enumeration tractable: the second target only varies when the first is interesting
@@ -29,7 +31,7 @@ Weight == Len(requested) + (IF nobase THEN 1 ELSE 0) + (IF customdirs THEN 2 ELS
 Emit == (EmitCases /\ Weight % NShards = Shard) =>
   PrintT(<<"CASE", ToJson([base1 |-> base1, base2 |-> base2, n11 |-> n11, n12 |-> n12, n21 |-> n21, n22 |-> n22,
                            requested |-> requested, args |-> args, nobase |-> nobase, resolve |-> resolve,
-                           customdirs |-> customdirs, twocmds |-> twocmds])>>)
+                           customdirs |-> customdirs, shareddir |-> shareddir, twocmds |-> twocmds])>>)
 \* law: dropping the base argmap removes exactly a prefix
 BaseIsPrefix == \A b \in {<<>>, <<"x">>, <<"x", "y">>} :
                   LET full == Argv(b, {<<"m1", <<"p">>>>}, requested, <<"z">>, FALSE)
